@@ -93,3 +93,417 @@ def first_illegal(case, obs):
         return None
     p = pr[0]
     return (p["step"], p["at"])
+
+
+# =================================================================================================
+# trace walking shared by the monitors below
+# =================================================================================================
+def _segments(T):
+    """split one observation's log into microstep segments, each ending with its '#t:' record"""
+    segs, cur = [], []
+    for r in T:
+        cur.append(r)
+        if r.startswith("#t:"):
+            segs.append(cur)
+            cur = []
+    return segs, cur          # cur = trailing records of a microstep that did not complete (error)
+
+
+def _ev_of(r):
+    return r.rsplit("@", 1)[1] if "@" in r else None
+
+
+def _name_of(r):
+    return r.rsplit("@", 1)[0] if "@" in r else r
+
+
+def _sid(mid, path):
+    return mid if path == "" else mid + "." + path
+
+
+def _clean(o):
+    """steps the order/accounting monitors can judge: no failed transition (rollback leaves no records)"""
+    return not o.get("E") and not o.get("X")
+
+
+def c03_order_accounting(case, obs, flavor):
+    """C03: exit -> transition -> entry; children exit first / parents enter first; one event per
+    microstep; exactly-once accounting against the observed configurations; frame."""
+    from . import ref
+    tree = Tree(case["machine"])
+    mid = tree.mid
+    out = []
+    if not obs or obs[0].get("E"):
+        return out
+    active = None
+    for step, o in enumerate(obs):
+        if not _clean(o):
+            active = set(o["C"])
+            continue
+        if step == 0:
+            active = set()
+        segs, tail = _segments(o["T"])
+        sent = None
+        groups = segs + ([tail] if tail else [])
+        if step == 0:
+            # the initial entry is its own group: the leading records carrying the synthetic start event
+            T = o["T"]
+            k = 0
+            while k < len(T) and (T[k].startswith("#recv") or _ev_of(T[k]) == "<init>"):
+                k += 1
+            segs2, tail2 = _segments(T[k:])
+            groups = [T[:k]] + segs2 + ([tail2] if tail2 else [])
+        for gi, seg in enumerate(groups):
+            phase = 0       # 0 exits, 1 transition actions, 2 entries
+            evs = set()
+            exits, enters, tmark = [], [], None
+            for at, r in enumerate(seg):
+                if r.startswith("#"):
+                    continue
+                name, ev = _name_of(r), _ev_of(r)
+                evs.add(ev)
+                kind = name.split(":", 1)[0]
+                if kind == "ex":
+                    if phase > 0:
+                        out.append({"kind": "order", "step": step, "at": at, "detail": f"exit action {name} after transition/entry actions"})
+                    exits.append(name[3:])
+                elif kind == "en":
+                    phase = 2
+                    enters.append(name[3:])
+                elif kind in ("tr", "done", "alw"):
+                    if phase == 2:
+                        out.append({"kind": "order", "step": step, "at": at, "detail": f"transition action {name} after an entry action"})
+                    phase = max(phase, 1)
+                    if tmark is None:
+                        tmark = name
+            if len(evs) > 1 and step > 0:
+                out.append({"kind": "event-identity", "step": step, "at": None, "detail": f"one microstep handed different events to its actions: {sorted(map(str, evs))}"})
+            for i in range(len(exits)):
+                for j in range(i + 1, len(exits)):
+                    a, b = _sid(mid, exits[i]), _sid(mid, exits[j])
+                    if b.startswith(a + "."):
+                        out.append({"kind": "order", "step": step, "at": None, "detail": f"{a} exited before its descendant {b}"})
+            for i in range(len(enters)):
+                for j in range(i + 1, len(enters)):
+                    a, b = _sid(mid, enters[i]), _sid(mid, enters[j])
+                    if a.startswith(b + "."):
+                        out.append({"kind": "order", "step": step, "at": None, "detail": f"{a} entered before its ancestor {b}"})
+            # accounting against the tracked configuration
+            for p in exits:
+                s = _sid(mid, p)
+                if s not in active:
+                    out.append({"kind": "accounting", "step": step, "at": None, "detail": f"exit actions of inactive state {s} ran"})
+                active.discard(s)
+            for p in enters:
+                s = _sid(mid, p)
+                if s in active:
+                    out.append({"kind": "accounting", "step": step, "at": None, "detail": f"state {s} entered while already active"})
+                active.add(s)
+            if seg and seg[-1].startswith("#t:"):
+                seen = set(x for x in seg[-1][3:].split(",") if x)
+                hist_free = {s for s in seen if tree.kind.get(s) != "history"}
+                if hist_free != active:
+                    out.append({"kind": "accounting", "step": step, "at": None,
+                                "detail": f"entry/exit actions do not account for the configuration change: unexplained {sorted(hist_free ^ active)[:4]}"})
+                    active = set(hist_free)
+            # frame: everything exited/entered lies in the inclusive subtree of LCA(source, target)
+            if tmark is not None and step > 0:
+                src, tgt = _marker_transition(tree, tmark)
+                if src is not None and tgt is not None:
+                    lca = _lca(src, tgt)
+                    for p in exits + enters:
+                        s = _sid(mid, p)
+                        if not (s == lca or s.startswith(lca + ".")):
+                            out.append({"kind": "frame", "step": step, "at": None,
+                                        "detail": f"{tmark}: state {s} outside the subtree of {lca} was exited/entered"})
+        if set(o["C"]) != active:
+            extra = sorted(set(o["C"]) ^ active)
+            if _clean(o):
+                out.append({"kind": "accounting", "step": step, "at": None, "detail": f"quiescent configuration not explained by entry/exit actions: {extra[:4]}"})
+            active = set(o["C"])
+    return out[:8]
+
+
+def _lca(a, b):
+    pa, pb = a.split("."), b.split(".")
+    n = 0
+    while n < len(pa) and n < len(pb) and pa[n] == pb[n]:
+        n += 1
+    return ".".join(pa[:max(n, 1)])
+
+
+def _marker_transition(tree, marker):
+    """(source id, resolved target id | None) of the transition whose first action is `marker`"""
+    from . import ref
+    mid = tree.mid
+    parts = marker.split(":")
+    kind = parts[0]
+    try:
+        if kind == "tr":
+            path, ev, idx = parts[1], ":".join(parts[2:-1]), int(parts[-1])
+            src = _sid(mid, path)
+            t = ref.norm_transitions(tree.cfg[src]["on"][ev])[idx]
+        elif kind == "done":
+            src = _sid(mid, parts[1])
+            t = ref.norm_transitions(tree.cfg[src]["onDone"])[0]
+        elif kind == "alw":
+            src = _sid(mid, parts[1])
+            t = ref.always_list(tree.cfg[src])[0]
+        else:
+            return None, None
+    except Exception:
+        return None, None
+    tg = t.get("target") if t else None
+    if not tg:
+        return src, None
+    return src, ref.resolve_simple(tree, src, tg)
+
+
+def c02_selection(case, obs, flavor):
+    """C02: exactly the nominated transitions fire, in order, stale ones skipped; no nominee = no-op."""
+    from . import ref
+    tree = Tree(case["machine"])
+    mid = tree.mid
+    gv = case.get("guards", {})
+    ops = case["ops"] if "ops" in case else [["send", e] for e in case["events"]]
+    out = []
+    for step in range(1, len(obs)):
+        prev, o = obs[step - 1], obs[step]
+        op = ops[step - 1]
+        if op[0] != "send" or prev["S"] != "running" or not _clean(o) or not _clean(prev):
+            continue
+        if oracles_illegal(tree, prev["C"]):
+            continue
+        ev = op[1]
+        try:
+            noms = ref.nominees(tree, prev["C"], ev, gv)
+        except ref.Missing:
+            continue
+        if noms is None:
+            continue
+        T = [r for r in o["T"] if not r.startswith("#recv:") and not r.startswith("#aerr:")]
+        if not noms:
+            if T or o["C"] != prev["C"] or o["H"] != prev["H"] or o.get("K") != prev.get("K") or o["S"] != prev["S"]:
+                out.append({"kind": "unhandled-not-noop", "step": step, "at": None,
+                            "detail": f"event {ev} has no nominee but something changed / ran: {T[:3]}"})
+            if o.get("can") is True:
+                out.append({"kind": "can", "step": step, "at": None, "detail": f"can({ev}) is true without a nominee"})
+            continue
+        if o.get("can") is False:
+            out.append({"kind": "can", "step": step, "at": None, "detail": f"can({ev}) is false although {noms[0]} is nominated"})
+        segs, tail = _segments(T)
+        cur = set(prev["C"])
+        si = 0
+        for (src, key, idx) in noms:
+            marker = f"tr:{ref.rel(src, mid)}:{key}:{idx}"
+            if len(noms) > 1 and src not in cur:
+                continue                      # stale: must be skipped
+            if si >= len(segs):
+                out.append({"kind": "nominee-not-fired", "step": step, "at": None, "detail": f"{marker} was nominated but did not run"})
+                break
+            seg = segs[si]
+            si += 1
+            fired = [_name_of(r) for r in seg if _name_of(r).split(":", 1)[0] in ("tr", "alw", "done")]
+            if fired[:1] != [marker]:
+                out.append({"kind": "wrong-transition", "step": step, "at": None, "detail": f"expected {marker} to fire, saw {fired[:2]}"})
+                break
+            if any(_ev_of(r) not in (ev,) for r in seg if "@" in r):
+                out.append({"kind": "event-identity", "step": step, "at": None, "detail": f"actions of {marker} did not receive event {ev}"})
+            cur = set(x for x in seg[-1][3:].split(",") if x)
+        # anything that fires with THIS event type after the nominees is an extra transition
+        for seg in segs[si:]:
+            evs = {_ev_of(r) for r in seg if "@" in r}
+            if evs == {ev} and not any(r.startswith("#recv:" + ev) for r in o["T"][1:]):
+                fired = [_name_of(r) for r in seg if _name_of(r).startswith("tr:")]
+                if fired:
+                    out.append({"kind": "extra-transition", "step": step, "at": None, "detail": f"{fired[0]} fired for {ev} but was not nominated"})
+                    break
+    return out[:6]
+
+
+def oracles_illegal(tree, ids):
+    return bool(tree.legal_problems(ids))
+
+
+def c05_engines_agree(case, obs_by_flavor):
+    """C05: same configurations, context, ordered (action, event) list, status at every drained point"""
+    out = []
+    a, b = obs_by_flavor.get("sync"), obs_by_flavor.get("async")
+    if a is None or b is None:
+        return out
+    from .impl import canon_ev
+    for step, (x, y) in enumerate(zip(a, b)):
+        if x.get("E") or y.get("E") or x.get("X") or y.get("X"):
+            break       # error reporting differs by design (raised vs logged)
+        ta = [r for r in x["T"] if not r.startswith("#")]
+        tb = [r for r in y["T"] if not r.startswith("#")]
+        diffs = []
+        if sorted(x["C"]) != sorted(y["C"]):
+            diffs.append("configuration")
+        if x["S"] != y["S"]:
+            diffs.append("status")
+        if x.get("K") != y.get("K"):
+            diffs.append("context")
+        if ta != tb:
+            diffs.append("actions")
+        if diffs:
+            k = next((i for i, (p, q) in enumerate(zip(ta, tb)) if p != q), min(len(ta), len(tb)))
+            out.append({"kind": "engines-disagree", "step": step, "at": k, "detail": f"sync vs async differ in {diffs}; first differing action sync={ta[k:k+2]} async={tb[k:k+2]}",
+                        "sync_C": x["C"], "async_C": y["C"], "sync_S": x["S"], "async_S": y["S"]})
+            break
+    return out
+
+
+def c10_completion(case, obs, flavor):
+    """C10: status `done` exactly when a top-level final state is active; afterwards nothing runs."""
+    tree = Tree(case["machine"])
+    out = []
+    rootk = tree.kind[tree.mid]
+    finished_at = None
+    for step, o in enumerate(obs):
+        if o.get("E") and step == 0:
+            return out
+        top_final = [c for c in tree.kids[tree.mid] if tree.kind[c] == "final" and c in o["C"]]
+        if finished_at is not None:
+            recs = [r for r in o["T"] if not r.startswith("#recv:")]
+            if recs or o["S"] != "done":
+                out.append({"kind": "activity-after-done", "step": step, "at": None, "detail": f"after completion: status={o['S']} records={recs[:3]}"})
+            continue
+        if rootk == "compound" and _clean(o) and o["S"] in ("running", "done"):
+            if top_final and o["S"] != "done" and not tree.legal_problems(o["C"]):
+                out.append({"kind": "not-completed", "step": step, "at": None, "detail": f"top-level final state {top_final[0]} is active but status is {o['S']}"})
+            if o["S"] == "done" and not top_final:
+                # it may have been left again within the same macrostep only if something ran after done
+                out.append({"kind": "done-without-final", "step": step, "at": None, "detail": "status done but no top-level final state is active"})
+        if o["S"] == "done":
+            finished_at = step
+            # user code after the completing entry within this very macrostep
+            T = o["T"]
+            idx = None
+            for i, r in enumerate(T):
+                nm = _name_of(r)
+                if nm.startswith("en:") and _sid(tree.mid, nm[3:]) in top_final:
+                    idx = i
+                    break
+            if idx is not None:
+                later_recv = [r for r in T[idx + 1:] if r.startswith("#recv:")]
+                if later_recv:
+                    out.append({"kind": "activity-after-done", "step": step, "at": idx, "detail": f"events processed after the machine completed: {later_recv[:3]}"})
+    return out[:4]
+
+
+def c11_history(case, obs, flavor):
+    """C11: a history target entered from outside its parent restores the recorded sub-configuration
+    (shallow: the recorded child + its default descent; deep: exactly the recorded leaves), or the
+    default / normal entry when never exited."""
+    from . import ref
+    tree = Tree(case["machine"])
+    mid = tree.mid
+    out = []
+    recorded = {}          # parent id -> set of strict descendants active at its last exit
+    active = set()
+    for step, o in enumerate(obs):
+        if not _clean(o) or (step == 0 and o.get("E")):
+            active = set(o["C"])
+            continue
+        segs, tail = _segments(o["T"])
+        for seg in segs + ([tail] if tail else []):
+            before = set(active)
+            exits = [_sid(mid, _name_of(r)[3:]) for r in seg if _name_of(r).startswith("ex:")]
+            enters = [_sid(mid, _name_of(r)[3:]) for r in seg if _name_of(r).startswith("en:")]
+            tmark = next((_name_of(r) for r in seg if _name_of(r).split(":", 1)[0] in ("tr", "done", "alw")), None)
+            expected = None
+            owner = None
+            if tmark and step > 0:
+                src, tgt = _marker_transition(tree, tmark)
+                if tgt is not None and tree.kind.get(tgt) == "history":
+                    owner = tree.parent[tgt]
+                    if owner not in before and not tree.legal_problems(sorted(before)):
+                        expected = _expected_restore(tree, tgt, recorded.get(owner))
+            for s in exits:
+                if any(tree.kind[c] == "history" for c in tree.kids.get(s, [])):
+                    recorded[s] = {x for x in before if x.startswith(s + ".")}
+                active.discard(s)
+            for s in enters:
+                active.add(s)
+            if seg and seg[-1].startswith("#t:"):
+                active = {x for x in seg[-1][3:].split(",") if x}
+            if expected is not None:
+                got = {x for x in active if x == owner or x.startswith(owner + ".")}
+                if got != expected:
+                    out.append({"kind": "history-restore", "step": step, "at": None,
+                                "detail": f"{tmark} -> history of {owner}: expected {sorted(expected)} got {sorted(got)}"})
+                dup = [s for s in enters if enters.count(s) > 1]
+                if dup:
+                    out.append({"kind": "history-restore", "step": step, "at": None, "detail": f"restored state entered twice: {dup[0]}"})
+        active = set(o["C"])
+    return out[:4]
+
+
+def _default_descent(tree, s, acc):
+    acc.add(s)
+    k = tree.kind[s]
+    if k == "compound" and tree.kids[s]:
+        ini = tree.initial.get(s)
+        if not ini:
+            cands = [c for c in tree.kids[s] if tree.kind[c] != "history"]
+            ini = cands[0].rsplit(".", 1)[1] if len(cands) == 1 else None
+        if ini and s + "." + ini in tree.kind:
+            _default_descent(tree, s + "." + ini, acc)
+    elif k == "parallel":
+        for c in tree.kids[s]:
+            if tree.kind[c] != "history":
+                _default_descent(tree, c, acc)
+    return acc
+
+
+def _expected_restore(tree, hist, rec):
+    """expected active set inside the owner's inclusive subtree after targeting `hist` from outside"""
+    from . import ref
+    owner = tree.parent[hist]
+    deep = tree.cfg[hist].get("history") == "deep"
+    acc = {owner}
+    def add_path(x):
+        cur = x
+        while cur != owner:
+            acc.add(cur)
+            cur = tree.parent[cur]
+    if not rec:
+        dflt = tree.cfg[hist].get("target")
+        t = ref.resolve_simple(tree, hist, dflt) if isinstance(dflt, str) and dflt else None
+        if t is not None and t.startswith(owner + "."):
+            add_path(t)
+            starts = [t]
+        else:
+            return _default_descent(tree, owner, set())
+    elif deep:
+        lv = [x for x in rec if tree.kind[x] in ("atomic", "final") or not tree.kids[x]]
+        for x in lv:
+            add_path(x)
+        return _fill_regions(tree, acc, owner)
+    else:
+        starts = [x for x in rec if tree.parent[x] == owner]
+        for x in starts:
+            acc.add(x)
+    # default descent below the explicitly named states; other regions of parallel ancestors by default
+    for x in starts:
+        _default_descent(tree, x, acc)
+    return _fill_regions(tree, acc, owner)
+
+
+def _fill_regions(tree, acc, owner):
+    """every parallel state in `acc` has all its regions entered (default descent when not named)"""
+    changed = True
+    while changed:
+        changed = False
+        for s in list(acc):
+            if tree.kind[s] == "parallel":
+                for c in tree.kids[s]:
+                    if tree.kind[c] != "history" and c not in acc:
+                        _default_descent(tree, c, acc)
+                        changed = True
+            if tree.kind[s] == "compound" and tree.kids[s] and not any(c in acc for c in tree.kids[s]):
+                before = len(acc)
+                _default_descent(tree, s, acc)
+                changed = changed or len(acc) != before
+    return acc
